@@ -25,6 +25,7 @@ ASSUMPTIONS = [
     "each paint-on segment addresses one row or two adjacent rows (non-adjacent rows in one segment become captions sharing their times, which the chaining clause does not describe)",
     "mode-switch programs are judged on conservation, order and start<=end only",
     "text comparison ignores spaces for the global order and is whitespace-normalised per row",
+    "the solid block (0x7f) is left out of the character-table rows: pycaption decodes it as nothing by design",
 ]
 TRUSTED = ["mc.ref.cea608 encoder"]
 MANIFEST = {
@@ -33,6 +34,9 @@ MANIFEST = {
     "note": "Bounds: rows per stream, three text shapes, three gaps, segment sequences up to length 2 (quick) / 3 (thorough).",
 }
 SHAPES = [lambda L: L + L.lower() + L + L.lower(), lambda L: L + L.lower() + " " + L + "d", lambda L: L, lambda L: (L + L.lower()) * 16, lambda L: "  " + L + L.lower() + " x", lambda L: L + "\u00c1" + L.lower() + "\u266a\u00f1 \u00fc" + L]
+# SHAPES[6]: 28 consecutive characters of the basic character table (all of it over five rows), after the letter
+_TABLE = "".join(C.BASIC[c] for c in range(0x21, 0x7F))  # without 0x7f (solid block), which pycaption decodes as nothing by design
+SHAPES.append(lambda L: L + _TABLE[("ABCDEFGHJK".index(L) % 5) * 19 :][:28])
 LETTERS = "ABCDEFGHJK"
 GAPS = [0, 1, 30]
 
@@ -272,6 +276,7 @@ def run_shard(d):
         shape_sets += [tuple(3 if i == j else (i % 3) for i in range(n)) for j in range(n)]  # one row uses all 32 columns
         shape_sets += [tuple(4 if i == j else (i % 3) for i in range(n)) for j in range(n)] + [tuple([4] * n)]  # indented rows
         shape_sets += [tuple(5 if i == j else (i % 3) for i in range(n)) for j in range(n)] + [tuple([5] * n)]  # special / extended characters
+        shape_sets += [tuple([6] * n)]  # the basic character table
         for shapes in shape_sets:
             for base_pat in (0, 1, 2, 3):
                 for every in (True, False):
@@ -286,6 +291,7 @@ def run_shard(d):
         shape_sets += [tuple(3 if i == j else (i % 3) for i in range(n)) for j in range(n)]
         shape_sets += [tuple(4 if i == j else (i % 3) for i in range(n)) for j in range(n)] + [tuple([4] * n)]  # indented rows
         shape_sets += [tuple(5 if i == j else (i % 3) for i in range(n)) for j in range(n)] + [tuple([5] * n)]  # special / extended characters
+        shape_sets += [tuple([6] * n)]  # the basic character table
         for shapes in shape_sets:
             texts = texts_for(shapes)
             # non-adjacent rows painted after one RDC: captions sharing their times (no chaining clause, but
